@@ -3,7 +3,7 @@ PROP = {
     "technique": ("runtime monitor: graph-snapshot differential oracle + broadcast monitor around a real "
                   "AuthenticatedGossiper over a real graph.Builder/bbolt graph DB, judged by a harness-side "
                   "BOLT-7 reference validity predicate"),
-    "level_text": ("384 (quick) / 16000 (thorough) PRNG scenarios of 40 remote gossip messages each (valid channel_announcement / channel_update / "
+    "level_text": ("256 (quick) / 16000 (thorough) PRNG scenarios of 40 remote gossip messages each (valid channel_announcement / channel_update / "
                    "node_announcement sets from PRNG keys, every single-field corruption with and without re-signing, "
                    "single-byte corruptions of the signed region and of the signatures, replays, orderings incl. "
                    "update-before-channel and not-yet-mined funding blocks, spent / mismatching / missing funding "
@@ -35,9 +35,9 @@ PROP = {
         "files": ["discovery/c20_test.go"],
         "shards": {"quick": 8, "thorough": 16},
         "watchdog": {"quick": 900, "thorough": 5400},
-        "floors": {"quick": {"msgs": 7400, "oracle_graph_evals": 7500, "oracle_bcast_evals": 1500,
-                             "ref_invalid": 5600, "applied_ca": 600, "applied_cu": 520, "applied_na": 410,
-                             "premature_reprocessed": 90, "future_reinjected": 20},
+        "floors": {"quick": {"msgs": 4900, "oracle_graph_evals": 5000, "oracle_bcast_evals": 1000,
+                             "ref_invalid": 3700, "applied_ca": 400, "applied_cu": 350, "applied_na": 270,
+                             "premature_reprocessed": 60, "future_reinjected": 12},
                    "thorough": {"msgs": 300000, "oracle_graph_evals": 320000, "oracle_bcast_evals": 65000,
                                 "ref_invalid": 240000, "applied_ca": 25000, "applied_cu": 22000,
                                 "applied_na": 17000, "premature_reprocessed": 4000, "future_reinjected": 1100}},
